@@ -31,7 +31,10 @@ Print Assumptions c06_starttls_fresh.
 
 (** (e) every non-empty line receives exactly one tagged completion (min = max
     = 1 over all paths of the handler it dispatches to; a line with a tag and
-    nothing else gets a tagged BAD) *)
+    nothing else gets a tagged BAD). The translator leaves TERMINAL paths out of
+    the count: paths on which a read on the connection failed (the client is
+    gone) or the server itself closes the connection (IDLE autologout with
+    "* BYE") — no completion can or need be delivered there. *)
 Theorem c06_one_tagged_reply : forall t, replies_ok t = true -> f_short_tagged t = true ->
   forall line, 1 <= length (fields (trim_space line)) -> tagged_for_line t line = (1, 1).
 Proof. exact one_tagged_per_line. Qed.
